@@ -254,9 +254,20 @@ def _solver_is_sat(solver, *exprs) -> bool:
             s2.set(k, v)
         s2.add(solver.assertions())
         r = s2.check(*exprs)
-        if r != z3.unknown:
+        if r == z3.unsat:
             PORTFOLIO_STATS["rescued"] += 1
-            return r == z3.sat
+            return False
+        if r == z3.sat:
+            if exprs:
+                # a feasibility question: the answer is all that is needed
+                PORTFOLIO_STATS["rescued"] += 1
+                return True
+            # the caller will read a model from `solver` itself: it has to find one on its own
+            solver.set(timeout=30000)
+            if solver.check() == z3.sat:
+                PORTFOLIO_STATS["rescued"] += 1
+                return True
+            break
     return _orig_solver_is_sat(solver, *exprs)
 
 
